@@ -72,6 +72,10 @@ pub(crate) fn table_invariant(t: &PairTable) -> bool {
     n == t.num_items
 }
 
+pub(crate) fn num_items_of(t: &PairTable) -> u32 {
+    t.num_items
+}
+
 pub(crate) fn has(t: &PairTable, item: u32) -> bool {
     let mut i = 0;
     while i < t.slots.len() {
